@@ -171,6 +171,9 @@ def parse_unit(path):
             u.sigs[q] = nm
         elif d == "@external":
             u.external[rest.strip()] = True
+        elif d == "@implheader":
+            ty, hdr = rest.split(None, 1)
+            u.cover[ty] = hdr
         elif d == "@note":
             u.notes.append(rest)
         elif d == "@trusted":
@@ -755,7 +758,11 @@ def build(unit_path, mode="verify"):
                 for (qual, fname, sig, body, orig, rel) in fn_texts:
                     self_emit_fn(em, res, u, rw, qual, sig, body, orig, rel, {}, mode, diffs, indent="")
             else:
-                impl_head = rw.apply("impl:" + _impl_type_name(impl_head), impl_head)
+                tyn = _impl_type_name(impl_head)
+                if tyn in u.cover:
+                    rw.note("R8", "impl:" + tyn, _norm(impl_head), u.cover[tyn])
+                    impl_head = u.cover[tyn]
+                impl_head = rw.apply("impl:" + tyn, impl_head)
                 ih = _norm(impl_head) if keep_trait else _emit_impl_header(impl_head)
                 em.add(ih + " {")
                 if keep_trait:
